@@ -38,6 +38,20 @@ CLAIMS = {
         design_ref="5/C04",
         note=TRUST + "; Canon.build is the definition of canonical LR(1) (trusted, ~100 lines)",
         technique="Lean 4 verified certificate checker (canonical LR(1) cover) run on the real table"),
+    "C14": dict(
+        category="proof",
+        text=("PARTIAL. Proved (C14_roundtrip): for the Lean model of LRParser::parse with the default string lexer, whitespace skipping "
+              "on or off, any in-range recognizers, partial parsing on/off and every input, the leaves of the returned tree with their "
+              "stored layout followed by the layout skipped before the end concatenate to exactly the consumed input; invariant over "
+              "Context.layout_ahead, its preservation across re-lexing after a reduce, and the idempotence of whitespace skipping; "
+              "certificates Cert.noShiftStop and Cert.structural run on the real table. Decided by oracle + correspondence only: the same "
+              "identity under a user Layout rule (whitespace / line comments / nested block comments), that the stored layout is "
+              "whitespace resp. a Layout sentence, and that inserting layout between tokens never changes the tree. Tie A: layout and "
+              "value slices of every leaf from the real parser vs the model; oracle: byte-level reconstruction. Two defects found by the "
+              "oracle are repaired by fix: commits (stale layout_ahead after a shift; repeated layout parses)."),
+        design_ref="5/C14",
+        note=TRUST + "; Layout-rule round trip is not a theorem (the layout sub-parser re-entering after a reduce needs the LayoutNotToken hypothesis)",
+        technique="Lean 4 invariant proof (round trip) over executable byte-level model + differential correspondence + reconstruction oracle"),
     "C15": dict(
         category="proof",
         text=("PARTIAL. Proved (C15_lr_no_panic, C15_lr_no_panic_any_lexer): the Lean model of LRParser::parse — in which every unwrap / "
